@@ -907,6 +907,7 @@ From V Require Proofs.BlocksTotal5Only.
    after the string "..peek_char_n:assert!(" + "*c > 0)" of the list below (it takes the two characters for a comment
    opener), and the build would lose the dependency of this file on the files of the sixth round *)
 From V Require Proofs.BlocksTotal6Row Proofs.BlocksTotal6Pos Proofs.BlocksTotal6Val Proofs.BlocksTotal6ValWalk Proofs.BlocksTotal6.
+From V Require Proofs.BlocksTotal7Add Proofs.BlocksTotal7ContWalk Proofs.BlocksTotal7Atx Proofs.BlocksTotal7CodeFin Proofs.BlocksTotal7CodeWalk Proofs.BlocksTotal7Fm Proofs.BlocksTotal7Loc Proofs.BlocksTotal7Cur Proofs.BlocksTotal7.
 
 Theorem Blocks_total_remaining_sites_list :
   BlocksTotal5Only.rem_sites =
@@ -1137,3 +1138,147 @@ Print Assumptions Blocks_total_partial_stored_values.
    (QI), not a Definition: with a Definition `apply QI_st_refmap` unifies with every goal and loops.
    NOTE for the build: coqdep does not see any `Require` placed after Blocks_total_remaining_sites_list (the string of
    the peek_char_n site contains the two characters of a comment opener); new files must be required before it. *)
+
+(* ---- totality, seventh round (Proofs/BlocksTotal7*.v; the files are required above, before
+   Blocks_total_remaining_sites_list: see the note there).  One `but <sites>` walk per family, each a copy of the `only`
+   walk of Proofs/BlocksTotal5Only.v (or of Proofs/BlocksTotal6ValWalk.v when the stored-value invariant QI is needed)
+   with the new allowed set; only the functions between the sites and parse_blocks carry an invariant, taken from
+   Ok-path lemmas.  Proofs/BlocksTotal7.v intersects them with the result of the sixth round.
+   For EVERY input byte string and EVERY option set:
+     BlocksTotal7Add       mod.rs:add_child:self.finalize(parent).unwrap().  finalize answers the parent the node had
+                           before it is closed (finalize_parent), so None means that `parent` has no parent, i.e. it is
+                           the root (no_parent_root: BlocksTotal2Tree.parent_some, no uniqueness needed), and the root is
+                           a Document (NI, first clause of the shape invariant TI of Proofs/ParserShapeTables.v).  The
+                           Document accepts every kind add_child is called with except Item
+                           (Blocks_total_document_accepts_add_child_kinds: the description-list kinds ARE accepted); the
+                           Item of handle_list goes under the List that matched or the List just created
+                           (add_child_gen_new: the node add_child has created is the node its identifier denotes; needs
+                           the pairwise distinct identifiers of the RESULT state only, from the Ok-path lemmas of TI).
+     BlocksTotal7Cont, BlocksTotal7ContWalk   SIX UTF-8 sites that depend on stored content only, WITHOUT the premise
+                           utf8_valid x: on the Ok path every Paragraph content and every fenced code content / literal is
+                           valid UTF-8 (parse_blocks_cont: add_line appends bytes that from_utf8 has CHECKED — when the
+                           check fails the parse panics at an allowed site — and spaces; the other writers take checked
+                           suffixes, trims, prefixes cut at a checked boundary).
+                             mod.rs:resolve_reference_link_definitions:content[seeked..], inlines.rs:link_label: a
+                               reference definition ends inside the content at its end or after an ASCII CR / LF; the label
+                               lies between ASCII brackets
+                             mod.rs:parse_reference_inline: from_utf8(clean_url), from_utf8(clean_title): slices cut at
+                               ASCII bytes (every match of the link_title scanner ends with an ASCII byte), then trim,
+                               entity decoding, unescape keep validity
+                             mod.rs:finalize_borrowed:String::from_utf8(tmp): info string = prefix of the content before an
+                               ASCII line end, then the same three
+                             table.rs:try_inserting_table_header_paragraph:String::from_utf8(paragraph_content): the
+                               paragraph offset `row` answers is 0 or follows an ASCII byte (the row end scanner matches
+                               ASCII only), unescape_pipes keeps validity
+     BlocksTotal7AtxInv, BlocksTotal7Atx   strings.rs:chop_trailing_hashtags:line.len() - 1 (panics iff every byte of its
+                           argument is white space).  Its only caller hands it the WHOLE line when the container is an ATX
+                           heading.  Case split on the line: when it contains # the call is safe outright
+                           (rtrim_slice_nonempty); when it does not, handle_atx_heading cannot answer handled
+                           (position_hash would answer None), and no other node with the identifier of the container is an
+                           ATX heading: the frame invariant PI c (no node with identifier c is an ATX heading) holds for
+                           the last matched container (check_open_blocks_lmc: the root, a node that matched, or a node
+                           with a child — SV, ball), for fresh identifiers (PI_fresh) and is kept by every function
+     BlocksTotal7Code*     mod.rs:finalize_borrowed:assert!(pos < content.len()) and content.as_bytes()[pos] (both idx):
+                           an OPEN fenced code block has a content with a line end, and a CR found there is not the last
+                           byte (lend_ok: stable when the content grows at the end; lines are l ++ LF without CR inside),
+                           EXCEPT the block handle_code_fence has just created, until add_text_to_container adds the rest
+                           of the opening line in the same process_line call (the cursor is inside the line:
+                           handle_code_fence_cursor, local).  Invariant CX e: every node but the exception e satisfies it
+                           (None between lines); while the exception is active only finalize_up_to finalizes, on
+                           self.current and its parents: a parent is not a CodeBlock (SV + TI), and self.current / the
+                           last matched container are older identifiers than the new block (FR: below ps_next at the entry
+                           of open_new_blocks), which also rules out the lazy branch and the `self.current changed` branch
+   Under utf8_valid x = true (the lines handed to process_line and the text after a front matter block are then valid
+   UTF-8: Blocks_total_lines_partial, BlocksTotal7Loc.prologue_rest_valid):
+     BlocksTotal7Fm        the three char-boundary slices of strings.rs front matter (split_off_front_matter:slice_from,
+                           slice_to, line_at:slice): every offset is 0, the length, the position of an ASCII line end or
+                           the position after one (BP, boundary_valid); no premise on the delimiter
+     BlocksTotal7Loc       mod.rs:handle_alert:String::from_utf8(tmp): the title is the line after the ASCII `]` that
+                           alert_title_loop found; mod.rs:handle_footnote:str::from_utf8(c): a footnote match is
+                           `[^` label `]:` .. with an ASCII-delimited label that contains no `]` (scan_footnote_shape, by
+                           inversion of the one regex rule)
+     BlocksTotal7Cur*      mod.rs:add_line:str::from_utf8(&line[self.offset..]): the cursor invariant
+                           UB line st := the suffix of the line from the offset (and from offset + 1 when a tab is partially
+                           consumed) is valid UTF-8, through every function that moves the cursor: moves over ASCII bytes
+                           (spaces / tabs in front of first_nonspace: F0 of the fourth round), over scanner matches that end
+                           with an ASCII byte or are all ASCII (structural facts over the regex rules:
+                           BlocksTotal7CurScan.re_last_ascii / re_ascii, checked by vm_compute per scanner), to the LF or
+                           beyond the line; a BOM is one character; for an ATX heading add_line gets the CHOPPED line, a
+                           prefix of the line cut in front of an ASCII byte
+   RESULT: all twelve UTF-8 sites, the add_child unwrap, chop_trailing_hashtags and the two fenced code sites
+   are excluded; on valid UTF-8 input
+   parse_blocks is Ok or a Panic at one of the 6 sites of rem_sites7; for every input, Ok or one of the 12 sites of
+   rem_sites7_all (= rem_sites7 + the
+   six sites that need valid input: add_line, handle_alert, handle_footnote, the three front matter slices). *)
+
+Theorem Blocks_total_remaining_sites_list7 :
+  BlocksTotal7.rem_sites7 =
+  [ "mod.rs:finalize_borrowed:assert!(ast.open)";
+    "mod.rs:add_line:assert!(ast.open)";
+    "mod.rs:add_text_to_container:self.finalize(self.current).unwrap()";
+    "table.rs:try_opening_header:content.len() - 2";
+    "table.rs:try_opening_header:content.len() - 2 - header_row.paragraph_offset";
+    "strings.rs:remove_trailing_blank_lines:line.len() - 1" ] /\
+  BlocksTotal7.rem_sites7_all =
+  [ "mod.rs:finalize_borrowed:assert!(ast.open)";
+    "mod.rs:add_line:assert!(ast.open)";
+    "mod.rs:add_text_to_container:self.finalize(self.current).unwrap()";
+    "mod.rs:add_line:str::from_utf8(&line[self.offset..]).unwrap()";
+    "mod.rs:handle_alert:String::from_utf8(tmp).unwrap()";
+    "mod.rs:handle_footnote:str::from_utf8(c).unwrap()";
+    "strings.rs:split_off_front_matter:slice_from";
+    "strings.rs:split_off_front_matter:slice_to";
+    "strings.rs:line_at:slice";
+    "table.rs:try_opening_header:content.len() - 2";
+    "table.rs:try_opening_header:content.len() - 2 - header_row.paragraph_offset";
+    "strings.rs:remove_trailing_blank_lines:line.len() - 1" ].
+Proof. split; vm_compute; reflexivity. Qed.
+Print Assumptions Blocks_total_remaining_sites_list7.
+
+(* valid UTF-8 input: Ok, or a Panic at one of the sites of rem_sites7 *)
+Theorem Blocks_total_partial_ok_or_remaining7 : forall o x, utf8_valid x = true ->
+  (exists r, parse_blocks o x = Ok r) \/ (exists s, parse_blocks o x = Panic s /\ In s BlocksTotal7.rem_sites7).
+Proof. exact BlocksTotal7.parse_blocks_ok_or_rem7. Qed.
+Print Assumptions Blocks_total_partial_ok_or_remaining7.
+
+(* EVERY input (valid UTF-8 or not): Ok, or a Panic at one of the sites of rem_sites7_all *)
+Theorem Blocks_total_partial_ok_or_remaining7_every_input : forall o x,
+  (exists r, parse_blocks o x = Ok r) \/ (exists s, parse_blocks o x = Panic s /\ In s BlocksTotal7.rem_sites7_all).
+Proof. exact BlocksTotal7.parse_blocks_ok_or_rem7_all. Qed.
+Print Assumptions Blocks_total_partial_ok_or_remaining7_every_input.
+
+(* ---- state after the seventh round.  PROVED for the whole parse_blocks, EVERY option set: no OutOfFuel; on valid UTF-8
+   input any Panic is at one of the sites of rem_sites7 (Blocks_total_remaining_sites_list7); no site was found
+   reachable (each agent of this round also searched by vm_compute: hundreds of thousands of small documents, no Panic).
+   REMAINING for Blocks_total_full_statement = exactly rem_sites7:
+     open spine (3)   finalize_borrowed:assert!(ast.open), add_line:assert!(ast.open),
+                      add_text_to_container:self.finalize(self.current).unwrap(): spine_ok2 with P1 / P2 (fourth round).
+                      PROVED pieces (Proofs/BlocksTotal7SpineLeaf.v, BlocksTotal7Spine.v, not pinned; under W = TI, SV, R0):
+                      the invariant as Props over parent_of (anc, OC = open chain up to the root, OS, SEG, Between, P1, P2,
+                      ATCH); finalize / add_line / add_child_loop / add_child_gen on an open chain do not panic at the
+                      three sites and keep the chain (add_child_loop_spine, add_child_gen_OC); finalize_up_to_spine (from
+                      `open strictly below the target`: covers S3); check_open_blocks_spine (from `root open`: the
+                      answered container has an open chain); add_text_to_container_spine (from ATCH); finalize_document,
+                      the prologue; eleven handlers for every option set; open_new_blocks with tables and description
+                      lists OFF.  Missing: the right-edge / walk clauses (last matched container is an ancestor of
+                      self.current), a clause about open nodes off the right edge that a detached empty paragraph
+                      exposes (DescriptionTerm, table preface), the other clauses of ATCH through the handlers, chain
+                      lemmas for parse_desc_list_details (bdetach, reopen_ast_nodes) and the table openers (edit_kids).
+     table header (2) try_opening_header:content.len() - 2 [- paragraph_offset].  PROVED pieces (Proofs/BlocksTotal7Hdr.v,
+                      BlocksTotal7HdrLocal.v, not pinned): row_po_room (content [] or ending with LF and row answers
+                      Some (po, cells) => po + 2 <= |content|), try_inserting_table_header_paragraph keeps the content of
+                      the container, ng7h_try_opening_header (the local step).  A per-node clause is FALSE: the preface
+                      paragraph try_inserting creates has trimmed content without LF, is open and never finalized
+                      (preface_paragraph_refuted); it is never a LAST child (a Table follows it).  Missing: the structural
+                      invariant `a Paragraph that is a last child has content [] or ending with LF` (child lists: a bad
+                      paragraph is immediately followed by a Table), `the paragraph handed to try_opening_block is a last
+                      child` (it is the last matched container, reached through last_child_is_open), and the cursor fact
+                      offset < |line| at add_line on a Paragraph.
+     indented code (1) strings.rs:remove_trailing_blank_lines:line.len() - 1 (panics on the empty string only).  The
+                      front matter call is safe (BlocksTotal7CodeFin.fm_nonempty).  The content of an indented code block
+                      at finalize is not empty: same exception scheme as the fenced blocks (restore `content <> []` in
+                      code_ok), plus the cursor invariant F1 at handle_code_block (after advance_offset(CODE_INDENT,
+                      columns) the offset is before first_nonspace, so add_line appends a non-empty rest): sg_and with
+                      handle_code_block_cur of Proofs/BlocksTotal4Open.v.
+   The walks of this round are independent files: a new family is one more `but <sites>` walk plus one line in the table
+   of Proofs/BlocksTotal7.v. *)
